@@ -1,8 +1,9 @@
 package main
 
 // C11 — CORS grants access only to origins the configuration allows.
-// Real code: middleware.CORSWithConfig over e.ServeHTTP with an instrumented handler.
-// Model: lean/EchoModel/C11.lean (serve).
+// Real code: middleware.CORS / CORSWithConfig (and the package variable middleware.DefaultCORSConfig they read) over
+// e.ServeHTTP with an instrumented handler.
+// Model: lean/EchoModel/C11.lean (setup, serveEntry).
 
 import (
 	"encoding/base64"
@@ -15,6 +16,7 @@ import (
 	"net/http/httptest"
 	"sort"
 	"strings"
+	"sync"
 	"unicode/utf8"
 
 	"github.com/labstack/echo/v4"
@@ -59,6 +61,134 @@ type c11Case struct {
 
 	// round 7: the state of the shared response when the first instance is entered, made by a middleware in front
 	Entry *c11EntryState `json:"entry,omitempty"`
+
+	// round 8: the order of the set-up calls around the package variable middleware.DefaultCORSConfig, which both
+	// constructors read when they are called.  The set-up of a case is a script: [Earlier: assignment? constructor call
+	// whose instance is NOT on the request's path]* , then per instance on the path (outermost first): its Dflt
+	// assignment (if any) and its constructor call, then the Late assignment (if any); then the request is served.
+	// A case that assigns anything starts with one CORS() call under the pristine value (some library, an earlier
+	// group, the previous case have called it), and the pristine value is restored afterwards.
+	Dflt    *c11Defaults `json:"dflt,omitempty"`    // assigned before the case's own instance is built
+	Earlier []c11Earlier `json:"earlier,omitempty"` // what happened before
+	Late    *c11Defaults `json:"late,omitempty"`    // assigned after the last constructor call, before the request
+}
+
+// a value assigned to middleware.DefaultCORSConfig (fields as in c11Case; Skipper 0 = DefaultSkipper)
+type c11Defaults struct {
+	Pristine bool     `json:"pristine,omitempty"` // the value the package is shipped with; the other fields are ignored
+	Allow    []string `json:"allow"`
+	Creds    bool     `json:"creds,omitempty"`
+	Unsafe   bool     `json:"unsafe,omitempty"`
+	Skipper  int      `json:"skipper,omitempty"`
+	Func     *c11Func `json:"func,omitempty"`
+	Methods  []string `json:"methods,omitempty"` // empty: the six methods the package is shipped with, unless NoMethods
+	NoMeth   bool     `json:"no_methods,omitempty"`
+	Headers  []string `json:"headers,omitempty"`
+	Expose   []string `json:"expose,omitempty"`
+	MaxAge   int      `json:"max_age,omitempty"`
+}
+
+// an earlier step of the set-up: an assignment (Dflt, may be nil) followed by a constructor call whose instance is not
+// on the request's path: Ctor 1 = CORS(), 0 = CORSWithConfig(CORSConfig{}), 2 = no call (assignment only)
+type c11Earlier struct {
+	Dflt *c11Defaults `json:"dflt,omitempty"`
+	Ctor int          `json:"ctor"`
+}
+
+var c11DefaultMethods = []string{http.MethodGet, http.MethodHead, http.MethodPut, http.MethodPatch, http.MethodPost, http.MethodDelete}
+
+// the value as a layer-shaped record (what CORS() would be configured with)
+func (d *c11Defaults) layer() c11Layer {
+	if d == nil || d.Pristine {
+		return c11Layer{Allow: []string{"*"}, Methods: c11DefaultMethods}
+	}
+	m := d.Methods
+	if d.NoMeth {
+		m = nil
+	} else if len(m) == 0 {
+		m = c11DefaultMethods
+	}
+	return c11Layer{Allow: d.Allow, Creds: d.Creds, Unsafe: d.Unsafe, Skipper: d.Skipper, Func: d.Func, Methods: m,
+		Headers: d.Headers, Expose: d.Expose, MaxAge: d.MaxAge}
+}
+
+func (d *c11Defaults) mapStrings(f func(string) string) *c11Defaults {
+	if d == nil {
+		return nil
+	}
+	x := *d
+	x.Allow = a3MapStrs(d.Allow, f)
+	if d.Func != nil {
+		fn := *d.Func
+		fn.Allow, fn.Err = a3MapStrs(d.Func.Allow, f), a3MapStrs(d.Func.Err, f)
+		x.Func = &fn
+	}
+	return &x
+}
+
+// middleware.DefaultCORSConfig is process-wide: a case that assigns it runs alone (write lock for the whole Run),
+// every other case holds the read lock for its whole Run, so that no case ever sees another case's value
+var c11DefaultsMu sync.RWMutex
+var c11PristineSkipper = middleware.DefaultCORSConfig.Skipper
+
+func c11SkipperFunc(kind int) middleware.Skipper {
+	if kind == 1 {
+		return func(ctx echo.Context) bool { return ctx.Request().Header.Get(c11SkipHeader) != "" }
+	}
+	return c11PristineSkipper
+}
+
+// c11Assign performs `middleware.DefaultCORSConfig = <value>` (fresh slices every time)
+func c11Assign(d *c11Defaults, fcalls *[]string) {
+	l := d.layer()
+	cp := func(x []string) []string {
+		if x == nil {
+			return nil
+		}
+		return append([]string{}, x...)
+	}
+	cfg := middleware.CORSConfig{
+		Skipper:                                  c11SkipperFunc(l.Skipper),
+		AllowOrigins:                             cp(l.Allow),
+		AllowCredentials:                         l.Creds,
+		UnsafeWildcardOriginWithAllowCredentials: l.Unsafe,
+		AllowMethods:                             cp(l.Methods),
+		AllowHeaders:                             cp(l.Headers),
+		ExposeHeaders:                            cp(l.Expose),
+		MaxAge:                                   l.MaxAge,
+	}
+	if l.Func != nil {
+		cfg.AllowOriginFunc = c11OriginFunc(l.Func, fcalls)
+	}
+	middleware.DefaultCORSConfig = cfg
+}
+
+func c11OriginFunc(f *c11Func, fcalls *[]string) func(string) (bool, error) {
+	return func(o string) (bool, error) {
+		*fcalls = append(*fcalls, o)
+		switch k := f.class(o); {
+		case k == 1:
+			return true, nil
+		case k == 2:
+			return false, nil
+		case k == 500:
+			return f.ErrTrue, errC11Func
+		default:
+			return f.ErrTrue, echo.NewHTTPError(k)
+		}
+	}
+}
+
+func (c *c11Case) assigns() bool {
+	if c.Dflt != nil || c.Late != nil || len(c.Earlier) > 0 {
+		return true
+	}
+	for _, l := range c.Stack {
+		if l.Dflt != nil {
+			return true
+		}
+	}
+	return false
 }
 
 // what an earlier middleware did to the response before calling next: CORS-looking headers already there, the Status
@@ -136,6 +266,11 @@ type c11Layer struct {
 	Headers []string `json:"headers,omitempty"`
 	Expose  []string `json:"expose,omitempty"`
 	MaxAge  int      `json:"max_age,omitempty"`
+	// round 8: middleware.DefaultCORSConfig is assigned this value just before the instance is built
+	Dflt *c11Defaults `json:"dflt,omitempty"`
+	// round 8: no constructor call - the case's own MiddlewareFunc VALUE is installed once more at this level (every
+	// other field is ignored).  Honoured only when no instance of the stack assigns the variable.
+	Same bool `json:"same,omitempty"`
 }
 
 func c11NormLayer(l c11Layer) c11Layer {
@@ -149,7 +284,13 @@ func c11NormLayer(l c11Layer) c11Layer {
 // all instances on the request's path, outermost first: the case's own one, then the stack ordered by level
 func (c *c11Case) layers() []c11Layer {
 	out := []c11Layer{c11NormLayer(c11Layer{At: -1, Ctor: c.Ctor, Allow: c.Allow, Creds: c.Creds, Unsafe: c.Unsafe, Skipper: c.Skipper,
-		Func: c.Func, Methods: c.Methods, Headers: c.Headers, Expose: c.Expose, MaxAge: c.MaxAge})}
+		Func: c.Func, Methods: c.Methods, Headers: c.Headers, Expose: c.Expose, MaxAge: c.MaxAge, Dflt: c.Dflt})}
+	sameOK := true
+	for _, l := range c.Stack {
+		if l.Dflt != nil {
+			sameOK = false
+		}
+	}
 	for at := 0; at <= 2; at++ {
 		for _, l := range c.Stack {
 			k := l.At
@@ -157,6 +298,12 @@ func (c *c11Case) layers() []c11Layer {
 				k = 2
 			}
 			if k == at {
+				if l.Same && sameOK {
+					l = out[0]
+					l.Same, l.Dflt = true, nil
+				} else {
+					l.Same = false
+				}
 				l.At = k
 				out = append(out, c11NormLayer(l))
 			}
@@ -179,34 +326,57 @@ func c11BuildCORS(l c11Layer, fcalls *[]string) echo.MiddlewareFunc {
 		MaxAge:                                   l.MaxAge,
 	}
 	if l.Skipper == 1 {
-		cfg.Skipper = func(ctx echo.Context) bool { return ctx.Request().Header.Get(c11SkipHeader) != "" }
+		cfg.Skipper = c11SkipperFunc(1)
 	}
 	if l.Func != nil {
-		f := l.Func
-		cfg.AllowOriginFunc = func(o string) (bool, error) {
-			*fcalls = append(*fcalls, o)
-			switch k := f.class(o); {
-			case k == 1:
-				return true, nil
-			case k == 2:
-				return false, nil
-			case k == 500:
-				return f.ErrTrue, errC11Func
-			default:
-				return f.ErrTrue, echo.NewHTTPError(k)
-			}
-		}
+		cfg.AllowOriginFunc = c11OriginFunc(l.Func, fcalls)
 	}
 	return middleware.CORSWithConfig(cfg)
 }
 
-func c11LayerOps(l c11Layer, skipped bool, routerAllow, origin string) string {
+// configuration tokens as the application wrote them: `creds unsafe allow func methods headers expose maxAge`
+func c11ConfigOps(l c11Layer, origin string) string {
 	fn := 0
 	if l.Func != nil {
 		fn = l.Func.class(origin)
 	}
-	return strings.Join([]string{wBool(skipped), wStr(routerAllow), wInt(l.Ctor), wBool(l.Creds), wBool(l.Unsafe), wStrs(l.Allow), wInt(fn),
+	return strings.Join([]string{wBool(l.Creds), wBool(l.Unsafe), wStrs(l.Allow), wInt(fn),
 		wStrs(l.Methods), wStrs(l.Headers), wStrs(l.Expose), wInt(l.MaxAge)}, " ")
+}
+
+// a constructor call of the set-up script: `1 keep ownSkipper skip routerAllow ctor` + configuration tokens
+func c11CallOps(l c11Layer, keep, skipMarked bool, routerAllow, origin string) string {
+	return strings.Join([]string{"1", wBool(keep), wBool(l.Skipper == 1), wBool(l.Skipper == 1 && skipMarked), wStr(routerAllow), wInt(l.Ctor),
+		c11ConfigOps(l, origin)}, " ")
+}
+
+// an assignment of the set-up script: `0 skip` + configuration tokens
+func c11AssignOps(d *c11Defaults, skipMarked bool, origin string) string {
+	l := d.layer()
+	return strings.Join([]string{"0", wBool(l.Skipper == 1 && skipMarked), c11ConfigOps(l, origin)}, " ")
+}
+
+// c11Effective: the configuration in force for an instance built while the package variable held `d` (the oracle's own
+// reading of the documentation): CORS() is configured by the variable, CORSWithConfig by its argument, a nil Skipper is
+// the variable's.  An EMPTY allow-list: the documented default is `*`, the code takes the variable's list - the two
+// agree for the pristine value only, so in every other case the property does not fix the verdict (listDefinite false).
+func c11Effective(l c11Layer, d *c11Defaults) (eff c11Layer, listDefinite bool) {
+	dl := d.layer()
+	pristineList := len(dl.Allow) == 1 && dl.Allow[0] == "*"
+	if l.Ctor == 1 {
+		eff = dl
+		eff.At, eff.Ctor = l.At, 1
+		return eff, len(dl.Allow) > 0
+	}
+	eff = l
+	if l.Skipper == 0 {
+		eff.Skipper = dl.Skipper
+	}
+	if len(l.Allow) == 0 {
+		eff.Allow = dl.Allow
+		return eff, pristineList
+	}
+	return eff, true
 }
 
 // AllowOriginFunc as a table: error (status Code; 500 = a plain error) for the origins in Err, true for those in
@@ -273,6 +443,13 @@ func (c *c11Case) mapStrings(f func(string) string) c11Alias {
 	a := c11Alias(*c)
 	a.Allow, a.Origin, a.Before = a3MapStrs(c.Allow, f), a3MapStrs(c.Origin, f), a3MapStrs(c.Before, f)
 	a.ReqHeaders, a.CtxAllow = a3MapStrs(c.ReqHeaders, f), f(c.CtxAllow)
+	a.Dflt, a.Late = c.Dflt.mapStrings(f), c.Late.mapStrings(f)
+	if c.Earlier != nil {
+		a.Earlier = make([]c11Earlier, len(c.Earlier))
+		for i, e := range c.Earlier {
+			a.Earlier[i] = c11Earlier{Dflt: e.Dflt.mapStrings(f), Ctor: e.Ctor}
+		}
+	}
 	if c.Func != nil {
 		fn := *c.Func
 		fn.Allow, fn.Err = a3MapStrs(c.Func.Allow, f), a3MapStrs(c.Func.Err, f)
@@ -282,6 +459,7 @@ func (c *c11Case) mapStrings(f func(string) string) c11Alias {
 		a.Stack = make([]c11Layer, len(c.Stack))
 		for i, l := range c.Stack {
 			l.Allow = a3MapStrs(l.Allow, f)
+			l.Dflt = l.Dflt.mapStrings(f)
 			if l.Func != nil {
 				fn := *l.Func
 				fn.Allow, fn.Err = a3MapStrs(l.Func.Allow, f), a3MapStrs(l.Func.Err, f)
@@ -378,10 +556,8 @@ func c11EntryShaped(p string) bool {
 	return i < 0 || strings.HasPrefix(p[i:], "://")
 }
 
+// the list in force (after the defaulting of an empty AllowOrigins, see c11Effective); an empty one allows nothing
 func c11Allowed(allow []string, origin string) bool {
-	if len(allow) == 0 {
-		return true // default AllowOrigins is ["*"]
-	}
 	for _, a := range allow {
 		if a == "*" || a == origin || c11Glob(a, origin) {
 			return true
@@ -399,29 +575,103 @@ func c11Has(l []string, x string) bool {
 	return false
 }
 
+// the set-up script of a case: the steps in order, which value the variable holds when each instance on the path is
+// built (atBuild), the configuration in force of each instance (eff, listDefinite: see c11Effective), whether its
+// AllowOriginFunc is the one in the package variable, and what its Skipper says about the case's request.
+// step.call == nil: an assignment; step.keep: index of the instance on the path, -1 = the instance is dropped
+type c11Step struct {
+	assign *c11Defaults
+	call   *c11Layer
+	keep   int
+}
+
+type c11Plan struct {
+	script       []c11Step
+	atBuild      []*c11Defaults
+	eff          []c11Layer
+	listDefinite []bool
+	dfltFunc     []bool
+	skipped      []bool
+	allSkipped   bool
+	grouped      bool
+}
+
+func c11PlanOf(c *c11Case, layers []c11Layer) *c11Plan {
+	n := len(layers)
+	var script []c11Step
+	if c.assigns() {
+		script = append(script, c11Step{call: &c11Layer{Ctor: 1}, keep: -1})
+		for _, e := range c.Earlier {
+			if e.Dflt != nil {
+				script = append(script, c11Step{assign: e.Dflt})
+			}
+			if e.Ctor == 0 || e.Ctor == 1 {
+				script = append(script, c11Step{call: &c11Layer{Ctor: e.Ctor}, keep: -1})
+			}
+		}
+	}
+	// (an instance installed a second time is, for the model, a second call with the same argument under the same
+	// value of the variable: C11_setup_no_memory)
+	for i := range layers {
+		if layers[i].Dflt != nil {
+			script = append(script, c11Step{assign: layers[i].Dflt})
+		}
+		script = append(script, c11Step{call: &layers[i], keep: i})
+	}
+	if c.Late != nil {
+		script = append(script, c11Step{assign: c.Late})
+	}
+	p := &c11Plan{script: script, atBuild: make([]*c11Defaults, n), eff: make([]c11Layer, n), listDefinite: make([]bool, n),
+		dfltFunc: make([]bool, n), skipped: make([]bool, n), allSkipped: true}
+	var cur *c11Defaults
+	for _, st := range script {
+		if st.assign != nil {
+			cur = st.assign
+		}
+		if st.call != nil && st.keep >= 0 {
+			p.atBuild[st.keep] = cur
+			p.eff[st.keep], p.listDefinite[st.keep] = c11Effective(*st.call, cur)
+			p.dfltFunc[st.keep] = st.call.Ctor == 1 && p.eff[st.keep].Func != nil
+		}
+	}
+	for i, l := range layers {
+		p.skipped[i] = p.eff[i].Skipper == 1 && c.Skip
+		if !p.skipped[i] {
+			p.allSkipped = false
+		}
+		if l.At >= 1 {
+			p.grouped = true
+		}
+	}
+	return p
+}
+
 func c11Run(ci any) (res Result) {
 	c := c11Norm(ci.(*c11Case))
 	layers := c.layers()
 	n := len(layers)
 	ran := false
 	fcalls := make([][]string, n)
+	var dcalls []string // calls of an AllowOriginFunc that sits in the package variable
 	routerAllow := make([]string, n)
 	preflight := c.Method == http.MethodOptions
 	origin := ""
 	if len(c.Origin) > 0 {
 		origin = c.Origin[0]
 	}
-	skipped := make([]bool, n)
-	allSkipped, grouped := true, false
-	for i, l := range layers {
-		skipped[i] = l.Skipper == 1 && c.Skip
-		if !skipped[i] {
-			allSkipped = false
-		}
-		if l.At >= 1 {
-			grouped = true
-		}
+	assigns := c.assigns()
+	if assigns {
+		c11DefaultsMu.Lock()
+		defer c11DefaultsMu.Unlock()
+		defer c11Assign(nil, &dcalls) // restore the pristine value
+	} else {
+		c11DefaultsMu.RLock()
+		defer c11DefaultsMu.RUnlock()
 	}
+
+	plan := c11PlanOf(c, layers)
+	script, atBuild, eff, listDefinite, dfltFunc := plan.script, plan.atBuild, plan.eff, plan.listDefinite, plan.dfltFunc
+	skipped, allSkipped, grouped := plan.skipped, plan.allSkipped, plan.grouped
 
 	e := echo.New()
 	// in front of every instance: what it will find under echo.ContextKeyHeaderAllow (the first probe may replace it)
@@ -451,9 +701,26 @@ func c11Run(ci any) (res Result) {
 		e.Use(c11Early(c.Entry))
 	}
 	var groupMW, routeMW []echo.MiddlewareFunc
+	built := make([]echo.MiddlewareFunc, n)
+	var dropped []echo.MiddlewareFunc
+	for _, st := range script {
+		if st.assign != nil {
+			c11Assign(st.assign, &dcalls)
+		}
+		if st.call != nil {
+			if st.keep > 0 && st.call.Same {
+				built[st.keep] = built[0]
+			} else if st.keep >= 0 {
+				built[st.keep] = c11BuildCORS(*st.call, &fcalls[st.keep])
+			} else {
+				dropped = append(dropped, c11BuildCORS(*st.call, &dcalls))
+			}
+		}
+	}
+	_ = dropped
 	for i, l := range layers {
 		i := i
-		mw := c11BuildCORS(l, &fcalls[i])
+		mw := built[i]
 		switch {
 		case l.At == -1 && c.Pre:
 			e.Pre(probe(i), mw)
@@ -544,9 +811,17 @@ func c11Run(ci any) (res Result) {
 		for i := range fcalls {
 			fcalls[i], routerAllow[i] = nil, ""
 		}
+		dcalls = nil
 		e.ServeHTTP(rec, req)
 		return false
 	}()
+	for i := range layers {
+		if dfltFunc[i] {
+			fcalls[i] = dcalls
+		} else if layers[i].Same {
+			fcalls[i] = fcalls[0]
+		}
+	}
 
 	en := c.Entry
 	if en == nil {
@@ -561,9 +836,16 @@ func c11Run(ci any) (res Result) {
 	}
 	ops = append(ops, wBool(en.ACAC), wStrs(en.Vary))
 	ops = append(ops, c13HeadOps(req)...)
-	ops = append(ops, wInt(n))
-	for i, l := range layers {
-		ops = append(ops, c11LayerOps(l, skipped[i], routerAllow[i], origin))
+	ops = append(ops, wInt(len(script)))
+	for _, st := range script {
+		switch {
+		case st.assign != nil:
+			ops = append(ops, c11AssignOps(st.assign, c.Skip, origin))
+		case st.keep >= 0:
+			ops = append(ops, c11CallOps(*st.call, true, c.Skip, routerAllow[st.keep], origin))
+		default:
+			ops = append(ops, c11CallOps(*st.call, false, c.Skip, "", origin))
+		}
 	}
 	res.Ops = strings.Join(ops, " ")
 	if panicked {
@@ -615,7 +897,7 @@ func c11Run(ci any) (res Result) {
 	// (AllowOriginFunc: its table; allow-list: syntactically valid origin and origin-shaped entries)
 	allows, definite := make([]bool, n), make([]bool, n)
 	anyCreds, onlyFuncs, firstActive := false, true, -1
-	for i, l := range layers {
+	for i, l := range eff {
 		if l.Func != nil {
 			allows[i], definite[i] = l.Func.class(origin) == 1, true
 		} else {
@@ -625,7 +907,7 @@ func c11Run(ci any) (res Result) {
 					shaped = false
 				}
 			}
-			allows[i], definite[i] = c11Allowed(l.Allow, origin), valid && shaped
+			allows[i], definite[i] = c11Allowed(l.Allow, origin), valid && shaped && listDefinite[i]
 		}
 		if skipped[i] {
 			continue
@@ -649,7 +931,7 @@ func c11Run(ci any) (res Result) {
 	if len(acao) > 1 {
 		fail(fmt.Sprintf("%d Access-Control-Allow-Origin values", len(acao)))
 	}
-	for i, l := range layers {
+	for i, l := range eff {
 		if l.Func == nil {
 			continue
 		}
@@ -696,7 +978,7 @@ func c11Run(ci any) (res Result) {
 				if onlyFuncs {
 					fail(fmt.Sprintf("Access-Control-Allow-Origin %q although AllowOriginFunc did not allow %q", v, origin))
 				} else {
-					fail(fmt.Sprintf("Access-Control-Allow-Origin %q emitted for origin %q, which no instance on the path allows (first allow-list %q: equality, *, or */? pattern over the whole origin)", v, origin, layers[0].Allow))
+					fail(fmt.Sprintf("Access-Control-Allow-Origin %q emitted for origin %q, which no instance on the path allows (first allow-list in force %q: equality, *, or */? pattern over the whole origin)", v, origin, eff[0].Allow))
 				}
 			}
 			if onlyFuncs && !asked {
@@ -707,10 +989,10 @@ func c11Run(ci any) (res Result) {
 		if ran && origin != "" {
 			for i := range layers {
 				if !skipped[i] && definite[i] && !allows[i] {
-					if layers[i].Func != nil {
-						fail(fmt.Sprintf("request from %q reached the handler although AllowOriginFunc did not allow it (answer class %d)%s", origin, layers[i].Func.class(origin), where(i)))
+					if eff[i].Func != nil {
+						fail(fmt.Sprintf("request from %q reached the handler although AllowOriginFunc did not allow it (answer class %d)%s", origin, eff[i].Func.class(origin), where(i)))
 					} else {
-						fail(fmt.Sprintf("non-preflight %s from disallowed origin %q reached the handler (status %d): allow-list %q%s", c.Method, origin, rec.Code, layers[i].Allow, where(i)))
+						fail(fmt.Sprintf("non-preflight %s from disallowed origin %q reached the handler (status %d): allow-list in force %q%s", c.Method, origin, rec.Code, eff[i].Allow, where(i)))
 					}
 				}
 			}
@@ -728,7 +1010,7 @@ func c11Run(ci any) (res Result) {
 		}
 	}
 	if preflight && !allSkipped {
-		fl := layers[firstActive]
+		fl := eff[firstActive]
 		funcErr := fl.Func != nil && origin != "" && fl.Func.class(origin) >= 100 && rec.Code == fl.Func.class(origin)
 		if ran || (rec.Code != http.StatusNoContent && !funcErr && !committed) {
 			fail(fmt.Sprintf("OPTIONS preflight answered %d, handler ran=%v (expected 204 without the handler)", rec.Code, ran))
@@ -794,8 +1076,49 @@ func c11Run(ci any) (res Result) {
 			}
 		}
 	}
+	if assigns {
+		res.Tags = append(res.Tags, "setup:DefaultCORSConfig-assigned")
+		if len(c.Earlier) > 0 {
+			res.Tags = append(res.Tags, "setup:earlier-steps")
+		}
+		if c.Late != nil {
+			res.Tags = append(res.Tags, "setup:assigned-after-the-last-constructor-call")
+		}
+		for i, l := range layers {
+			if atBuild[i] == nil || atBuild[i].Pristine {
+				if i > 0 && atBuild[i] != nil {
+					res.Tags = append(res.Tags, "setup:built-after-reset-to-pristine")
+				}
+				continue
+			}
+			switch {
+			case l.Ctor == 1 && i > 0 && l.Dflt != nil:
+				res.Tags = append(res.Tags, "setup:CORS()-again-after-assignment")
+			case l.Ctor == 1:
+				res.Tags = append(res.Tags, "setup:CORS()-under-assigned-value")
+			case len(l.Allow) == 0 && l.Func == nil:
+				res.Tags = append(res.Tags, "setup:CORSWithConfig-takes-the-variable's-list")
+			default:
+				res.Tags = append(res.Tags, "setup:CORSWithConfig-own-list-under-assigned-value")
+			}
+			if len(eff[i].Allow) == 0 && eff[i].Func == nil {
+				res.Tags = append(res.Tags, "setup:both-lists-empty")
+			}
+			if l.Skipper == 0 && eff[i].Skipper == 1 {
+				res.Tags = append(res.Tags, "setup:skipper-from-the-variable")
+			}
+			if dfltFunc[i] {
+				res.Tags = append(res.Tags, "setup:AllowOriginFunc-from-the-variable")
+			}
+		}
+	}
+	for _, l := range layers {
+		if l.Same {
+			res.Tags = append(res.Tags, "stack:same-instance-installed-twice")
+		}
+	}
 	hasPattern := false
-	for i, l := range layers {
+	for i, l := range eff {
 		if l.Ctor == 1 {
 			res.Tags = append(res.Tags, "ctor-CORS()")
 		}
@@ -891,7 +1214,10 @@ func c11WildLabel(r *rand.Rand, l string) string {
 // an allow-list entry derived from a base origin
 func c11Entry(r *rand.Rand, b c11Parts) string {
 	p := c11Parts{scheme: b.scheme, labels: append([]string(nil), b.labels...), port: b.port}
-	switch r.Intn(12) {
+	switch r.Intn(13) {
+	case 12: // an IPv6 literal (brackets are regexp metacharacters too), mostly with a wildcard port
+		return c11Pick(r, []string{"http", "https"}) + "://" + c11Pick(r, []string{"[::1]", "[2001:db8::a]", "[fe80::1]", "[::ffff:10.0.0.1]"}) +
+			c11Pick(r, []string{":*", ":*", ":80?0", "", ":8080", "*"})
 	case 0, 1: // literal
 	case 2, 3: // classic sub-domain wildcard
 		p.labels[0] = "*"
@@ -1017,6 +1343,142 @@ func c11GenConfig(r *rand.Rand, base *c11Case, allow []string) {
 	if r.Intn(5) == 0 {
 		c11GenStack(r, base, allow)
 	}
+	if r.Intn(6) == 0 {
+		c11GenSetup(r, base, allow)
+	}
+}
+
+// a value for middleware.DefaultCORSConfig: mostly the list at hand (so that the origins derived from it aim at the
+// variable's list), sometimes `*`, an empty list, an unrelated or a narrowed one; every other field now and then
+func c11GenDefaults(r *rand.Rand, allow []string, creds, unsafe bool) *c11Defaults {
+	d := &c11Defaults{Creds: creds, Unsafe: unsafe}
+	switch r.Intn(12) {
+	case 0:
+		return &c11Defaults{Pristine: true}
+	case 1:
+		d.Allow = c11Pick(r, [][]string{nil, {}})
+	case 2:
+		d.Allow = []string{"*"}
+	case 3:
+		for k := 1 + r.Intn(2); k > 0; k-- {
+			d.Allow = append(d.Allow, c11Entry(r, c11Base(r)))
+		}
+	case 4:
+		for _, a := range allow {
+			if x := c11Fill(r, a, false); x != "" && r.Intn(2) == 0 {
+				d.Allow = append(d.Allow, x)
+			}
+		}
+		if len(d.Allow) == 0 {
+			d.Allow = []string{c11Base(r).String()}
+		}
+	default:
+		d.Allow = append([]string(nil), allow...)
+	}
+	if r.Intn(4) == 0 {
+		d.Creds = !d.Creds
+	}
+	if d.Creds && r.Intn(4) == 0 {
+		d.Unsafe = true
+	}
+	if r.Intn(6) == 0 {
+		d.Skipper = 1
+	}
+	if r.Intn(10) == 0 {
+		f := &c11Func{Code: c11Pick(r, []int{500, 403, 418}), ErrTrue: r.Intn(2) == 0}
+		for _, a := range allow {
+			if x := c11Fill(r, a, false); x != "" && r.Intn(2) == 0 {
+				if r.Intn(5) == 0 {
+					f.Err = append(f.Err, x)
+				} else {
+					f.Allow = append(f.Allow, x)
+				}
+			}
+		}
+		d.Func = f
+	}
+	switch r.Intn(4) {
+	case 0:
+		d.NoMeth = true // an application that wants the router's Allow value clears the list
+	case 1:
+		d.Methods = c11Pick(r, [][]string{{"GET"}, {"GET", "POST"}, {"PUT", "DELETE", "PATCH"}, {""}})
+	}
+	if r.Intn(5) == 0 {
+		d.Headers = c11Pick(r, [][]string{{"X-A", "X-B"}, {""}, {"Content-Type"}})
+	}
+	if r.Intn(5) == 0 {
+		d.Expose = c11Pick(r, [][]string{{"X-E"}, {"X-E", "X-F"}, {""}})
+	}
+	if r.Intn(5) == 0 {
+		d.MaxAge = c11Pick(r, []int{600, -1, 1, 86400})
+	}
+	return d
+}
+
+// c11GenSetup: the order of the set-up calls around middleware.DefaultCORSConfig.  Shapes: CORS() under an assigned
+// value (the documented way of changing the defaults); CORS() once under the pristine value and AGAIN after the
+// assignment (root and group); the reverse (assigned, then reset to pristine); CORSWithConfig with an empty list
+// taking the variable's; CORSWithConfig with its own list under a foreign value; earlier constructor calls under other
+// values; an assignment after the last constructor call.
+func c11GenSetup(r *rand.Rand, base *c11Case, allow []string) {
+	mk := func() *c11Defaults { return c11GenDefaults(r, allow, base.Creds, base.Unsafe) }
+	other := func() *c11Defaults {
+		switch r.Intn(3) {
+		case 0:
+			return &c11Defaults{Pristine: true}
+		case 1:
+			return &c11Defaults{Allow: []string{"*"}, Creds: r.Intn(2) == 0}
+		}
+		var l []string
+		for k := 1 + r.Intn(2); k > 0; k-- {
+			l = append(l, c11Entry(r, c11Base(r)))
+		}
+		return c11GenDefaults(r, l, r.Intn(3) == 0, false)
+	}
+	switch r.Intn(9) {
+	case 0, 1:
+		base.Ctor, base.Dflt = 1, mk()
+	case 2:
+		// CORS() on the root under the pristine value, assignment, CORS() again further in
+		base.Ctor, base.Dflt = 1, nil
+		base.Stack = append([]c11Layer{{Ctor: 1, Dflt: mk(), At: c11Pick(r, []int{0, 1, 1, 2})}}, base.Stack...)
+	case 3:
+		base.Ctor, base.Dflt = 1, mk()
+		base.Stack = append([]c11Layer{{Ctor: 1, Dflt: &c11Defaults{Pristine: true}, At: c11Pick(r, []int{0, 1, 2})}}, base.Stack...)
+	case 4:
+		// an empty list of its own: the variable's list is taken
+		base.Ctor, base.Func, base.Allow, base.Dflt = 0, nil, nil, mk()
+	case 5:
+		// its own list: of the variable only Skipper and AllowMethods may show
+		base.Ctor, base.Dflt = 0, other()
+	case 6:
+		base.Ctor, base.Dflt = 1, mk()
+		for k := 1 + r.Intn(2); k > 0; k-- {
+			base.Earlier = append(base.Earlier, c11Earlier{Dflt: other(), Ctor: c11Pick(r, []int{1, 1, 0, 2})})
+		}
+	case 7:
+		base.Late = other()
+		if r.Intn(2) == 0 {
+			base.Ctor = 1
+			if r.Intn(2) == 0 {
+				base.Dflt = mk()
+			}
+		}
+	default:
+		// two values one after the other, an instance built under each
+		base.Ctor, base.Dflt = 1, mk()
+		base.Stack = append(base.Stack, c11Layer{Ctor: c11Pick(r, []int{0, 1}), Dflt: other(), At: c11Pick(r, []int{0, 1, 2}), Creds: r.Intn(3) == 0})
+	}
+	if base.Late == nil && r.Intn(5) == 0 {
+		base.Late = other()
+	}
+	if len(base.Earlier) == 0 && r.Intn(5) == 0 {
+		base.Earlier = []c11Earlier{{Dflt: other(), Ctor: c11Pick(r, []int{1, 0})}}
+	}
+	if r.Intn(6) == 0 {
+		// no assignment in between: the earlier call alone must leave nothing behind
+		base.Earlier = append(base.Earlier, c11Earlier{Ctor: c11Pick(r, []int{1, 0})})
+	}
 }
 
 // c11GenStack: further instances on the request's path.  The typical shapes: a permissive instance on the root
@@ -1113,6 +1575,10 @@ func c11GenStack(r *rand.Rand, base *c11Case, allow []string) {
 		l.At = 2
 		base.Stack = append(base.Stack, l)
 	}
+	if r.Intn(6) == 0 {
+		// `mw := CORS...(); e.Use(mw); g.Use(mw)`: one constructor call, the value installed twice on the path
+		base.Stack = append(base.Stack, c11Layer{Same: true, At: c11Pick(r, []int{0, 1, 2})})
+	}
 }
 
 // per request: the parts that vary inside one configuration
@@ -1128,7 +1594,13 @@ var c11DecoyPool = [][2]string{
 }
 
 func c11GenRequest(r *rand.Rand, c *c11Case) {
-	if c.Skipper == 1 || r.Intn(40) == 0 {
+	viaVariable := c.Dflt != nil && c.Dflt.Skipper == 1
+	for _, l := range c.Stack {
+		if l.Dflt != nil && l.Dflt.Skipper == 1 {
+			viaVariable = true
+		}
+	}
+	if c.Skipper == 1 || viaVariable || r.Intn(40) == 0 {
 		c.Skip = r.Intn(3) == 0
 	}
 	switch r.Intn(12) {
@@ -1225,8 +1697,47 @@ func c11PadHost(o string, hostLen int) string {
 	return o[:i+3] + pad + host
 }
 
+// c11RegexpReading: what a matcher that forgets to quote a metacharacter would accept instead of the entry's literal
+// text: the fragment is replaced by a string its READING AS A REGULAR EXPRESSION matches (a member of the bracket class,
+// one or two repetitions for `+` / `{2}`, the group's content, one branch of the alternation - which then is anchored on
+// one side only -, a digit for `\d`, the other case behind `(?i)`, any characters for the dots of `a..b`)
+func c11RegexpReading(r *rand.Rand, entry string) (string, bool) {
+	type alt struct {
+		frag string
+		repl []string
+	}
+	alts := []alt{{"[ab]", []string{"a", "b"}}, {"a+b", []string{"ab", "aab", "aaab"}}, {"(x)", []string{"x"}}, {"a{2}", []string{"aa"}},
+		{"\\d", []string{"7", "0"}}, {"(?i)a", []string{"A", "a"}}, {"a..b", []string{"axyb", "a--b", "a.xb"}}}
+	r.Shuffle(len(alts), func(i, j int) { alts[i], alts[j] = alts[j], alts[i] })
+	for _, a := range alts {
+		if i := strings.Index(entry, a.frag); i >= 0 {
+			return c11Fill(r, entry[:i]+c11Pick(r, a.repl)+entry[i+len(a.frag):], false), true
+		}
+	}
+	if i := strings.Index(entry, "["); i >= 0 {
+		// any bracket expression: one member of the class instead of the bracketed text
+		if j := strings.Index(entry[i:], "]"); j > 1 {
+			class := entry[i+1 : i+j]
+			return c11Fill(r, entry[:i]+string(class[r.Intn(len(class))])+entry[i+j+1:], false), true
+		}
+	}
+	if i := strings.Index(entry, "a|b"); i >= 0 {
+		// `^<left>a|b<right>$`: everything that starts with <left>a, everything that ends with b<right>
+		if r.Intn(2) == 0 {
+			return c11Fill(r, entry[:i+1], false) + c11Pick(r, []string{".evil.com", "", "x", ".example.com:8080"}), true
+		}
+		return c11Pick(r, []string{"https://evil.", "https://", "x", "http://evil.com/"}) + c11Fill(r, entry[i+2:], false), true
+	}
+	return "", false
+}
+
 // origins derived from one entry: instances and look-alikes
 func c11Derive(r *rand.Rand, entry string) (string, string) {
+	if r.Intn(3) == 0 {
+		if o, ok := c11RegexpReading(r, entry); ok {
+			return o, "regexp-reading-of-a-metacharacter"
+		}
+	}
 	inst := c11Fill(r, entry, false)
 	if strings.Contains(entry, "?") && r.Intn(4) == 0 {
 		return c11Fill(r, entry, true), "question-mark-zero-or-two"
@@ -1400,11 +1911,25 @@ func c11Gen(r *rand.Rand, tier string) []any {
 		c11GenConfig(r, cfgBase, allow)
 		// what the origins of this list are derived from: its entries, and the origins its AllowOriginFunc knows
 		derive := append([]string(nil), allow...)
+		fromDflt := func(d *c11Defaults) {
+			if d != nil && !d.Pristine {
+				derive = append(derive, d.Allow...)
+				if d.Func != nil {
+					derive = append(append(derive, d.Func.Allow...), d.Func.Err...)
+				}
+			}
+		}
 		for _, l := range cfgBase.Stack {
 			derive = append(derive, l.Allow...)
 			if l.Func != nil {
 				derive = append(append(derive, l.Func.Allow...), l.Func.Err...)
 			}
+			fromDflt(l.Dflt)
+		}
+		fromDflt(cfgBase.Dflt)
+		fromDflt(cfgBase.Late)
+		for _, e := range cfgBase.Earlier {
+			fromDflt(e.Dflt)
 		}
 		derive = append(derive, cfgBase.Allow...)
 		if cfgBase.Func != nil {
@@ -1518,10 +2043,12 @@ func c11Shrink(ci any) []any {
 	if c.Ctor != 0 {
 		simpler(func(d *c11Case) { d.Ctor = 0 })
 		// what CORS() ignores anyway
-		simpler(func(d *c11Case) {
-			d.Allow, d.Creds, d.Unsafe, d.Func, d.Skipper = nil, false, false, nil, 0
-			d.Methods, d.Headers, d.Expose, d.MaxAge = nil, nil, nil, 0
-		})
+		if c.Allow != nil || c.Creds || c.Unsafe || c.Func != nil || c.Skipper != 0 || c.Methods != nil || c.Headers != nil || c.Expose != nil || c.MaxAge != 0 {
+			simpler(func(d *c11Case) {
+				d.Allow, d.Creds, d.Unsafe, d.Func, d.Skipper = nil, false, false, nil, 0
+				d.Methods, d.Headers, d.Expose, d.MaxAge = nil, nil, nil, 0
+			})
+		}
 	}
 	if c.Skipper != 0 {
 		simpler(func(d *c11Case) { d.Skipper = 0 })
@@ -1585,6 +2112,61 @@ func c11Shrink(ci any) []any {
 		simpler(func(d *c11Case) { d.Entry = &c11EntryState{Commit: c.Entry.Commit} })
 		simpler(func(d *c11Case) { d.Entry = &c11EntryState{ACAO: c.Entry.ACAO, ACAC: c.Entry.ACAC, Vary: c.Entry.Vary} })
 	}
+	// the set-up script
+	dfltSimpler := func(x *c11Defaults, put func(d *c11Case, y *c11Defaults)) {
+		if x == nil {
+			return
+		}
+		simpler(func(d *c11Case) { put(d, nil) })
+		if x.Pristine {
+			return
+		}
+		simpler(func(d *c11Case) { put(d, &c11Defaults{Pristine: true}) })
+		if x.Creds || x.Unsafe || x.Skipper != 0 || x.Func != nil || len(x.Methods) > 0 || x.NoMeth || len(x.Headers) > 0 || len(x.Expose) > 0 || x.MaxAge != 0 {
+			simpler(func(d *c11Case) { put(d, &c11Defaults{Allow: x.Allow}) })
+			simpler(func(d *c11Case) { put(d, &c11Defaults{Allow: x.Allow, Creds: x.Creds, Unsafe: x.Unsafe}) })
+			simpler(func(d *c11Case) { y := *x; y.Func = nil; put(d, &y) })
+		}
+		if len(x.Allow) > 1 {
+			for k := range x.Allow {
+				k := k
+				simpler(func(d *c11Case) {
+					y := *x
+					y.Allow = append(append([]string(nil), x.Allow[:k]...), x.Allow[k+1:]...)
+					put(d, &y)
+				})
+			}
+		}
+		if len(x.Allow) == 1 {
+			a := x.Allow[0]
+			for i := len(a) - 1; i >= 0; i-- {
+				i := i
+				simpler(func(d *c11Case) { y := *x; y.Allow = []string{a[:i] + a[i+1:]}; put(d, &y) })
+			}
+		}
+	}
+	dfltSimpler(c.Dflt, func(d *c11Case, y *c11Defaults) { d.Dflt = y })
+	dfltSimpler(c.Late, func(d *c11Case, y *c11Defaults) { d.Late = y })
+	if len(c.Earlier) > 0 {
+		simpler(func(d *c11Case) { d.Earlier = nil })
+	}
+	for i, e := range c.Earlier {
+		i, e := i, e
+		if len(c.Earlier) > 1 {
+			simpler(func(d *c11Case) { d.Earlier = append(append([]c11Earlier(nil), c.Earlier[:i]...), c.Earlier[i+1:]...) })
+		}
+		dfltSimpler(e.Dflt, func(d *c11Case, y *c11Defaults) {
+			d.Earlier = append([]c11Earlier(nil), c.Earlier...)
+			d.Earlier[i].Dflt = y
+		})
+	}
+	for i, l := range c.Stack {
+		i := i
+		dfltSimpler(l.Dflt, func(d *c11Case, y *c11Defaults) {
+			d.Stack = append([]c11Layer(nil), c.Stack...)
+			d.Stack[i].Dflt = y
+		})
+	}
 	for i := range c.Decoy {
 		i := i
 		simpler(func(d *c11Case) { d.Decoy = append(append([][2]string(nil), c.Decoy[:i]...), c.Decoy[i+1:]...) })
@@ -1603,6 +2185,9 @@ func c11Shrink(ci any) []any {
 			d.Stack = nil
 			d.Ctor, d.Allow, d.Creds, d.Unsafe, d.Func, d.Skipper = l.Ctor, l.Allow, l.Creds, l.Unsafe, l.Func, l.Skipper
 			d.Methods, d.Headers, d.Expose, d.MaxAge = l.Methods, l.Headers, l.Expose, l.MaxAge
+			if l.Dflt != nil {
+				d.Dflt = l.Dflt
+			}
 		})
 		if l.At != 0 {
 			simpler(func(d *c11Case) { cpStack(d); d.Stack[i].At = 0 })
@@ -1654,7 +2239,17 @@ func c11Shrink(ci any) []any {
 			out = append(out, d)
 		}
 	}
-	return out
+	// a candidate that IS the case would be "progress" for ever
+	self := *c
+	self.Note = ""
+	same := string(caseJSON(&self))
+	kept := out[:0]
+	for _, d := range out {
+		if string(caseJSON(d)) != same {
+			kept = append(kept, d)
+		}
+	}
+	return kept
 }
 
 func c11Known(ci any, res Result, modelObs string) string { return "" }
@@ -1693,6 +2288,26 @@ func c11Mutate(r *rand.Rand, ci any) []any {
 			}
 		}
 	})
+	// the same strictness by way of the package variable: CORS() under an assigned value; CORS() under the pristine value
+	// and again after the assignment; an assignment after the constructor call, which must not reach the instance
+	only := &c11Defaults{Allow: []string{"https://only.allowed.example"}}
+	viaDflt := func(d *c11Case) {
+		strict(d)
+		d.Method, d.Ctor, d.Allow, d.Creds, d.Dflt, d.Earlier, d.Late = "GET", 1, nil, false, only, nil, nil
+	}
+	v(viaDflt)
+	v(func(d *c11Case) { viaDflt(d); d.Dflt, d.Stack = nil, []c11Layer{{Ctor: 1, Dflt: only, At: 1}} })
+	v(func(d *c11Case) { viaDflt(d); d.Late = &c11Defaults{Pristine: true} })
+	v(func(d *c11Case) {
+		viaDflt(d)
+		d.Earlier = []c11Earlier{{Dflt: &c11Defaults{Allow: []string{"*"}, Creds: true}, Ctor: 1}}
+	})
+	v(func(d *c11Case) { strict(d); d.Method, d.Late = "GET", &c11Defaults{Allow: []string{"*"}, Creds: true} })
+	v(func(d *c11Case) {
+		strict(d)
+		d.Method, d.Allow, d.Dflt = "GET", nil, &c11Defaults{Pristine: true}
+		d.Earlier = []c11Earlier{{Dflt: only, Ctor: 1}}
+	})
 	if len(c.Origin) > 0 {
 		o := c.Origin[0]
 		v(func(d *c11Case) { d.Method, d.Before = "GET", []string{o} })
@@ -1709,13 +2324,14 @@ func c11Mutate(r *rand.Rand, ci any) []any {
 func init() {
 	register(&Prop{
 		ID:             "C11",
-		Rule:           "allow-lists of 0-5 entries built from base origins: literals, `*`, sub-domain wildcard, `*` label in the middle / at the end, partial-label `*`/`?`, several wildcards, wildcard in scheme / port, regexp metacharacters, degenerate entries, lists of nothing but blank entries, entries with bytes that are not UTF-8 (do not compile); per list ~60 requests whose Origin is derived from one of ITS entries (or of the origins its AllowOriginFunc knows): instances (wildcards filled with labels, dotted runs, empty) and look-alikes (`?` filled with zero or two characters, suffix / prefix extension, left labels replaced, dot replaced, label inserted / dropped, other scheme, mangled `://`, hosts of 252-255 and origins of 260-262 bytes, the entry text itself, case change, char dropped / inserted / replaced, port, userinfo) x GET/POST/PUT/HEAD/OPTIONS x credentials / unsafe-wildcard flags (all four combinations). Round 4, per list: CORS() vs CORSWithConfig, custom Skipper (skips requests carrying a marker header), AllowOriginFunc as a table (allow / refuse / error with (false|true, err)), AllowMethods / AllowHeaders / ExposeHeaders (nil, empty, blank items) / MaxAge (0, positive, negative), routes with or without an OPTIONS handler (router-provided Allow in the context), e.Use or e.Pre; per request: skip marker, a middleware in front that replaces the context's Allow value by a string / an empty string / a non-string, Access-Control-Request-Headers, 0-2 earlier requests through the same instance (unrelated or resembling this one); plus one probe per list deciding whether an entry of valid / truncated / overlong / surrogate / out-of-range UTF-8 compiled. Round 5: for 1/5 of the lists 1-3 further CORS instances on the path of the same request (e.Use, the route's group, the route; twice on one route): permissive outside (CORS(), `*`, wide patterns) with a strict one inside, strict outside with a permissive one inside, the same list twice, narrowed copies, unrelated lists, AllowOriginFunc instances, per-instance Skipper; the context's Allow value is recorded in front of every instance; plus the `labels-reversed` look-alike. Round 6: 1/3 of the requests carry 1-3 decoy headers a short-cut might key on (Access-Control-Request-Method present / empty, Sec-Fetch-Site same-origin, Sec-Fetch-Mode, X-Requested-With, Authorization, Cookie, Upgrade, X-Forwarded-*, request-side Access-Control-Allow-Origin / Vary, ...), 1/12 a Host equal to the Origin's host; the whole request head (method, every header line) is the model's input; look-alikes `noncanonical-spelling` (default port :443 / :80, trailing slash or dot, blanks around, upper-case host or scheme, comma-joined, a percent-encoded host byte, `#` / `?` / `:` appended, leading-zero port, `scheme:host`) and `long-host-with-port` (host of 249-300 bytes plus a port). Round 7: for 1/8 of the requests a middleware in front of the first instance has prepared the shared response: CORS-looking headers already present (Access-Control-Allow-Origin `*` / a foreign origin / null, -Credentials, Vary), the Status field preset, or the response already STARTED (WriteHeader / Write / WriteHeader+Flush with 200 / 202 / 206 / 404) before next is called; the state is an input of the model, and once the response is started the observation is what went over the wire (recorder snapshot). Oracle decides Allowed with its own glob matcher (no regexp), AllowOriginFunc cases by its table and call log. With several instances the oracle judges each one on its own: the handler ran => every unskipped instance allows the Origin; a grant in the response => some instance that looked at the request allows it. Non-trivial = (the allow-list has a wildcard pattern or AllowOriginFunc is set) and the request has an Origin; distinct = distinct model op lines",
+		Rule:           "allow-lists of 0-5 entries built from base origins: literals, `*`, sub-domain wildcard, `*` label in the middle / at the end, partial-label `*`/`?`, several wildcards, wildcard in scheme / port, regexp metacharacters, degenerate entries, lists of nothing but blank entries, entries with bytes that are not UTF-8 (do not compile); per list ~60 requests whose Origin is derived from one of ITS entries (or of the origins its AllowOriginFunc knows): instances (wildcards filled with labels, dotted runs, empty) and look-alikes (`?` filled with zero or two characters, suffix / prefix extension, left labels replaced, dot replaced, label inserted / dropped, other scheme, mangled `://`, hosts of 252-255 and origins of 260-262 bytes, the entry text itself, case change, char dropped / inserted / replaced, port, userinfo) x GET/POST/PUT/HEAD/OPTIONS x credentials / unsafe-wildcard flags (all four combinations). Round 4, per list: CORS() vs CORSWithConfig, custom Skipper (skips requests carrying a marker header), AllowOriginFunc as a table (allow / refuse / error with (false|true, err)), AllowMethods / AllowHeaders / ExposeHeaders (nil, empty, blank items) / MaxAge (0, positive, negative), routes with or without an OPTIONS handler (router-provided Allow in the context), e.Use or e.Pre; per request: skip marker, a middleware in front that replaces the context's Allow value by a string / an empty string / a non-string, Access-Control-Request-Headers, 0-2 earlier requests through the same instance (unrelated or resembling this one); plus one probe per list deciding whether an entry of valid / truncated / overlong / surrogate / out-of-range UTF-8 compiled. Round 5: for 1/5 of the lists 1-3 further CORS instances on the path of the same request (e.Use, the route's group, the route; twice on one route): permissive outside (CORS(), `*`, wide patterns) with a strict one inside, strict outside with a permissive one inside, the same list twice, narrowed copies, unrelated lists, AllowOriginFunc instances, per-instance Skipper; the context's Allow value is recorded in front of every instance; plus the `labels-reversed` look-alike. Round 6: 1/3 of the requests carry 1-3 decoy headers a short-cut might key on (Access-Control-Request-Method present / empty, Sec-Fetch-Site same-origin, Sec-Fetch-Mode, X-Requested-With, Authorization, Cookie, Upgrade, X-Forwarded-*, request-side Access-Control-Allow-Origin / Vary, ...), 1/12 a Host equal to the Origin's host; the whole request head (method, every header line) is the model's input; look-alikes `noncanonical-spelling` (default port :443 / :80, trailing slash or dot, blanks around, upper-case host or scheme, comma-joined, a percent-encoded host byte, `#` / `?` / `:` appended, leading-zero port, `scheme:host`) and `long-host-with-port` (host of 249-300 bytes plus a port). Round 7: for 1/8 of the requests a middleware in front of the first instance has prepared the shared response: CORS-looking headers already present (Access-Control-Allow-Origin `*` / a foreign origin / null, -Credentials, Vary), the Status field preset, or the response already STARTED (WriteHeader / Write / WriteHeader+Flush with 200 / 202 / 206 / 404) before next is called; the state is an input of the model, and once the response is started the observation is what went over the wire (recorder snapshot). Round 8: for 1/6 of the lists the set-up is a SCRIPT around the package variable middleware.DefaultCORSConfig, which both constructors read when they are called: the variable assigned (the list at hand, `*`, an empty / unrelated / narrowed list, credentials, unsafe flag, a marker-header Skipper, an AllowOriginFunc, AllowMethods cleared or replaced, headers, max-age; or reset to the shipped value) before the CORS() / CORSWithConfig call of an instance on the path, CORS() on the root under the shipped value and AGAIN after an assignment for the group / route, the reverse, CORSWithConfig with an empty list (takes the variable's) or with its own list under a foreign value, earlier constructor calls (CORS() / CORSWithConfig(CORSConfig{}), with or without an assignment in front) whose instance is not on the path, an assignment after the last constructor call; every case that assigns anything starts with one CORS() call under the shipped value, runs alone (process-wide lock) and restores the shipped value; the whole script is the model's input. Oracle decides Allowed with its own glob matcher (no regexp), AllowOriginFunc cases by its table and call log. With several instances the oracle judges each one on its own: the handler ran => every unskipped instance allows the Origin; a grant in the response => some instance that looked at the request allows it. Non-trivial = (the allow-list has a wildcard pattern or AllowOriginFunc is set) and the request has an Origin; distinct = distinct model op lines",
 		New:            func() any { return &c11Case{} },
 		Gen:            c11Gen,
 		Run:            c11Run,
 		Shrink:         c11Shrink,
 		Known:          c11Known,
 		Mutate:         c11Mutate,
-		Correspondence: "C11.serveStack over C11.serveFull (lean/EchoModel/C11.lean: glob, validUtf8, matchScheme, matchSubdomain, allowLoop, decideOrigin, preflight / simple-request headers) vs middleware.CORS / CORSWithConfig + matchSubdomain + regexp",
+		Tolerable:      c11Tolerable,
+		Correspondence: "C11.serveEntry / C11.serveStack over C11.serveFull on the instances C11.setup builds from the set-up script (lean/EchoModel/C11.lean: glob, validUtf8, matchScheme, matchSubdomain, allowLoop, decideOrigin, preflight / simple-request headers, Call.build / withConfig / corsDefault over the value of DefaultCORSConfig) vs middleware.CORS / CORSWithConfig + middleware.DefaultCORSConfig + matchSubdomain + regexp",
 	})
 }
